@@ -91,3 +91,50 @@ pub fn search(seed: u64, n: u64) {
     stats.print("C19", "search");
     finish();
 }
+
+/// Correspondence transcript: `curve_length` (with `chord_length`, `control_polygon_length`) on every curve class of the
+/// search generator plus the corpus, a share scaled to the full box, a share scaled far out of the box (these reach the
+/// `max_error <= MIN_ERROR` acceptance), each at all three tolerances. The Lean side runs the GENERATED `curve_length`
+/// at `Float` and must reproduce every number bit for bit.
+pub fn corr(seed: u64, n: u64) {
+    let mut rng = Rng(seed ^ 0xC19);
+    let mut stats = Stats::new();
+    let hxw = |w: &Cub| w.iter().map(|p| format!("{} {}", hx(p.0), hx(p.1))).collect::<Vec<_>>().join(" ");
+    let mut emit = |stats: &mut Stats, w: &Cub, class: &str| {
+        let c = lib_curve(w);
+        for (e, ename, _) in ERRORS.iter() {
+            let line = format!("C19 len R {} {} | {} {} {}", hxw(w), hx(*e), hx(curve_length(&c, *e)), hx(chord_length(&c)), hx(control_polygon_length(&c)));
+            stats.case(&line, !class.ends_with("point"));
+            stats.count(&format!("len.{}.{}", class, ename));
+            println!("{}", line);
+        }
+    };
+    let corpus: [(Cub, &str); 4] = [
+        ([Coord2(0.0, 0.0), Coord2(100.0, 100.0), Coord2(0.0, 100.0), Coord2(100.0, 0.0)], "corpus_cusp"),
+        ([Coord2(0.0, 0.0), Coord2(100.0, 0.0), Coord2(0.0, 100.0), Coord2(100.0, 100.0)], "corpus_s_curve"),
+        ([Coord2(50.0, 0.0), Coord2(100.0, 100.0), Coord2(0.0, 100.0), Coord2(50.0, 0.0)], "corpus_closed"),
+        ([Coord2(5.0, 5.0), Coord2(5.0, 5.0), Coord2(5.0, 5.0), Coord2(5.0, 5.0)], "corpus_point"),
+    ];
+    for (w, class) in corpus.iter() { emit(&mut stats, w, class); }
+    for i in 0..n {
+        let class = CURVE_CLASSES[rng.i(CURVE_CLASSES.len() as u64) as usize];
+        let mut w = gen_class(&mut rng, class);
+        match rng.i(40) {
+            // spans the whole box
+            0..=9 if class != "point" => {
+                let (mut lo, mut hi) = (Coord2(f64::MAX, f64::MAX), Coord2(f64::MIN, f64::MIN));
+                for p in w.iter() { lo = Coord2(lo.0.min(p.0), lo.1.min(p.1)); hi = Coord2(hi.0.max(p.0), hi.1.max(p.1)); }
+                let s = (100.0 / (hi.0 - lo.0).max(hi.1 - lo.1).max(1e-9)).min(50.0);
+                for p in w.iter_mut() { *p = (*p - lo) * s; }
+                stats.count("scaled_to_full_box");
+            }
+            // far larger than the box (at most one in 200 curves: tens of thousands of pieces, all accepted by the MIN_ERROR floor)
+            10 if i % 5 == 0 => { let s = 10f64.powf(rng.r(3.0, 6.0)); for p in w.iter_mut() { *p = *p * s; } stats.count("scaled_up_1e3_to_1e6"); }
+            // far smaller than the box (accepted at once)
+            11 => { let s = 10f64.powf(rng.r(-9.0, -3.0)); for p in w.iter_mut() { *p = *p * s; } stats.count("scaled_down_1e-9_to_1e-3"); }
+            _ => {}
+        }
+        emit(&mut stats, &w, class);
+    }
+    stats.print("C19", "corr");
+}
